@@ -86,3 +86,13 @@ Theorem C16_krum_neighbourhood : forall G nc i, (i < length G)%nat ->
                                    (seq 0 i ++ seq (S i) (length G - S i))))).
 Proof. exact krum_scores_of_gramian. Qed.
 Print Assumptions C16_krum_neighbourhood.
+
+(* ---- instance gap (added): the executed TrimmedMean model maps to the real one ---- *)
+From Coq Require Import QArith Qreals.
+From TJ Require Import NumQ.
+From TJ.proofs Require Import TransferProofs TransferAggProofs.
+Theorem C16_executed_trimmed_mean_is_the_real_model : forall b J,
+  agg_trimmed_mean RN b (map (map Q2R) J)
+  = match agg_trimmed_mean QN b J with Ok v => Ok (map Q2R v) | Err e => Err e end.
+Proof. exact agg_trimmed_mean_Q_to_R. Qed.
+Print Assumptions C16_executed_trimmed_mean_is_the_real_model.
